@@ -24,7 +24,34 @@ pub fn mutate(ch: &mut Choices, b: &mut Vec<u8>) -> &'static str {
         return "fault.random_bytes";
     }
     let n = b.len() as u64;
-    match ch.draw("mut.kind", 12) {
+    match ch.draw("mut.kind", 14) {
+        12 | 13 => {
+            // a small unsigned integer rewritten to another value: constructor tags, era numbers, variant
+            // indices (`[tag, ...]`) are what decoders dispatch or index on; early heads preferred
+            let mut heads = vec![];
+            if let Ok(items) = cbor::parse_seq(b) {
+                for it in &items {
+                    it.heads(&mut heads);
+                }
+            }
+            let cands: Vec<usize> = heads.into_iter().filter(|h| b[*h] >> 5 == 0).collect();
+            if cands.is_empty() {
+                b[0] = ch.draw("mut.tag.first", 256) as u8;
+                return "fault.discriminant_rewrite";
+            }
+            let k = if ch.chance("mut.tag.early", 2, 3) { ch.draw("mut.tag.idx.early", cands.len().min(6) as u64) } else { ch.draw("mut.tag.idx", cands.len() as u64) } as usize;
+            let h = cands[k];
+            let ai = b[h] & 0x1f;
+            let arglen = match ai { 24 => 1, 25 => 2, 26 => 4, 27 => 8, _ => 0 };
+            let new: Vec<u8> = match ch.draw("mut.tag.val", 4) {
+                0 | 1 => vec![ch.draw("mut.tag.small", 24) as u8],
+                2 => vec![0x18, ch.draw("mut.tag.byte", 256) as u8],
+                _ => vec![0x19, 0xff, 0xff],
+            };
+            let end = (h + 1 + arglen).min(b.len());
+            b.splice(h..end, new);
+            "fault.discriminant_rewrite"
+        }
         10 | 11 => {
             // a container / string head rewritten to declare a huge length (what a hostile peer sends to
             // make a decoder pre-allocate): 4- or 8-byte length argument inserted after the head
@@ -710,7 +737,7 @@ impl Scenario for LocalStatePayloads {
 
 pub fn def() -> CheckDef {
     let mut required: Vec<&'static str> = vec![
-        "fault.bit_flip", "fault.byte_overwrite", "fault.truncation", "fault.splice", "fault.cbor_length_corruption", "fault.garbage_range", "fault.random_bytes", "fault.deep_nesting", "fault.huge_declared_length", "fault.foreign_protocol_payload",
+        "fault.bit_flip", "fault.byte_overwrite", "fault.truncation", "fault.splice", "fault.cbor_length_corruption", "fault.garbage_range", "fault.random_bytes", "fault.deep_nesting", "fault.huge_declared_length", "fault.discriminant_rewrite", "fault.foreign_protocol_payload",
         "probe.MultiEraBlock::decode.ok", "probe.MultiEraBlock::decode.err", "probe.MultiEraTx::decode.ok", "probe.MultiEraTx::decode.err", "probe.MultiEraHeader::decode.ok", "probe.MultiEraHeader::decode.err",
         "probe.MultiEraOutput::decode.reached", "fault.structured_random_payload", "probe.queries_v16::q::DRep.reached", "probe.queries_v16::q::BlockQuery.reached", "probe.Address::from_bytes.ok", "probe.Address::from_bytes.err", "probe.AnyMessage::from_payload.ok",
     ];
